@@ -1,12 +1,185 @@
 /-
 Props/C03.lean — C03: all network notations denote the same network; str() round-trips.
--/
-import NetaddrVerif.Model.NetParse
-namespace NV.C03
-open NV NV.AddrParse NV.NetParse
 
-/-- copy construction of an IPNetwork returns the same (version, value, prefixlen) -/
-theorem copy_same (be : Backend) (n : Net) (i : Bool) (ver : Option Nat) (fl : Nat) :
-    ipNetwork be (.copyNet n) i ver fl = .ok n := rfl
+Property (properties.jsonl): for every address a and prefix p, the strings 'a/p',
+'a/<netmask of p>', 'a/<hostmask of p>', the tuple (int(a), p) and copy-construction all build the
+same IPNetwork (same version, same stored address including host bits, same prefix); str() of
+any IPNetwork parses back to an identical one; a bare address gets the full-width prefix; NOHOST
+clears exactly the host bits; partial / classful IPv4 abbreviations expand by the documented
+octet-padding and class rules; a prefix outside 0..width, a non-contiguous mask or a malformed
+address raises AddrFormatError.
+
+Reading of the `p ∈ {0, width}` corner (DESIGN.md, C03): the all-zeros / all-ones mask strings
+are netmasks first, so the hostmask spelling of /0 reads as /width and vice versa.
+
+The theorems are about `NV.NetParse.ipNetwork` / `parseIpNetwork` / `netStr` /
+`cidrAbbrevToVerbose` / `expandPartialAddress` (Model/NetParse.lean), for both back ends.
+-/
+import NetaddrVerif.Lemmas.C03L
+namespace NV.C03
+open NV NV.Text4 NV.AddrParse NV.NetParse NV.C01L NV.C03L
+
+/-- string = address text + '/' + prefix text that resolves to `q ≤ width` -/
+theorem parse_with_prefix (be : Backend) (ver : Nat) (hver : VerOK ver) (v : Nat) (hv : v < 2 ^ width ver)
+    (T : List Char) (q : Nat) (hT : T.contains '/' = false)
+    (hres : resolvePrefix be ver (some T) = .ok (q : Int)) (hq : q ≤ width ver) (fl : Nat) :
+    parseIpNetwork be ver (.str (intToStr be ver v ++ '/' :: T)) false fl = applyNohost ver fl v q := by
+  have hns := addr_noslash be ver hver v hv
+  have hrange : ¬ ¬ (0 ≤ (q : Int) ∧ (q : Int) ≤ (width ver : Int)) := by
+    intro h; apply h; constructor <;> omega
+  unfold parseIpNetwork
+  simp only [Bool.false_eq_true, if_false, splitSlash_app _ T hns, hT, addr_rt be ver hver v hv, hres, hrange,
+    Int.toNat_natCast]
+
+/-- a bare address -/
+theorem parse_bare (be : Backend) (ver : Nat) (hver : VerOK ver) (v : Nat) (hv : v < 2 ^ width ver) (fl : Nat) :
+    parseIpNetwork be ver (.str (intToStr be ver v)) false fl = applyNohost ver fl v (width ver) := by
+  have hns := addr_noslash be ver hver v hv
+  have hrange : ¬ ¬ (0 ≤ (width ver : Int) ∧ (width ver : Int) ≤ (width ver : Int)) := by
+    intro h; apply h; constructor <;> omega
+  unfold parseIpNetwork
+  simp only [Bool.false_eq_true, if_false, splitSlash_none _ hns, addr_rt be ver hver v hv, resolve_none, hrange,
+    Int.toNat_natCast]
+
+/-- from `parse_ip_network` to `IPNetwork(...)`: explicit version, or detection (IPv4 first) -/
+theorem net_of_parse (be : Backend) (ver : Nat) (hver : VerOK ver) (s : List Char) (i : Bool) (fl v' p : Nat)
+    (pver : Option Nat) (hpver : pver = none ∨ pver = some ver)
+    (h4 : ver = 6 → parseIpNetwork be 4 (.str s) i fl = .error .addrFormat)
+    (h : parseIpNetwork be ver (.str s) i fl = .ok (v', p)) :
+    ipNetwork be (.str s) i pver fl = .ok ⟨ver, v', p⟩ := by
+  unfold ipNetwork
+  rcases hpver with hp | hp <;> subst hp
+  · rcases hver with hv | hv <;> subst hv
+    · simp only [h]
+    · simp only [h4 rfl, h]
+  · have hver' : ver = 4 ∨ ver = 6 := hver
+    simp only [if_pos hver', h]
+
+/-- the result for address text `a` + a prefix text resolving to `q` -/
+theorem net_with_prefix (be : Backend) (ver : Nat) (hver : VerOK ver) (v : Nat) (hv : v < 2 ^ width ver)
+    (T : List Char) (q : Nat) (hT : T.contains '/' = false)
+    (hres : resolvePrefix be ver (some T) = .ok (q : Int)) (hq : q ≤ width ver) (fl : Nat)
+    (pver : Option Nat) (hpver : pver = none ∨ pver = some ver) :
+    ipNetwork be (.str (intToStr be ver v ++ '/' :: T)) false pver fl =
+      .ok ⟨ver, if hasFlag fl NOHOST then v &&& netNetmask (width ver) q else v, q⟩ := by
+  apply net_of_parse be ver hver _ _ _ _ _ pver hpver
+  · intro h6; subst h6
+    exact parse4_v6text be v hv (some T) (by intro t ht; cases ht; exact hT) fl
+  · rw [parse_with_prefix be ver hver v hv T q hT hres hq, applyNohost_ok ver hver fl v q hq]
+
+/-- **All spellings agree.**  For every family, value `v` and prefix `p`: 'a/p', 'a/<netmask of p>',
+    'a/<hostmask of p>', the tuple `(v, p)` and copy construction build `⟨ver, v, p⟩` — host bits
+    kept — with explicit or detected version; the hostmask spelling at `p ∈ {0, width}` is the
+    all-ones / all-zeros mask and reads as the netmask of `width - p` (netmask precedence). -/
+theorem spellings_agree (be : Backend) (ver : Nat) (hver : VerOK ver) (v : Nat) (hv : v < 2 ^ width ver)
+    (p : Nat) (hp : p ≤ width ver) (pver : Option Nat) (hpver : pver = none ∨ pver = some ver) :
+    let a := intToStr be ver v
+    let w := width ver
+    ipNetwork be (.str (a ++ '/' :: dec p)) false pver 0 = .ok ⟨ver, v, p⟩ ∧
+    ipNetwork be (.str (a ++ '/' :: intToStr be ver (netNetmask w p))) false pver 0 = .ok ⟨ver, v, p⟩ ∧
+    ipNetwork be (.str (a ++ '/' :: intToStr be ver (netHostmask w p))) false pver 0
+      = .ok ⟨ver, v, if p = 0 ∨ p = w then w - p else p⟩ ∧
+    ipNetwork be (.tuple v p) false (some ver) 0 = .ok ⟨ver, v, p⟩ ∧
+    ipNetwork be (.copyNet ⟨ver, v, p⟩) false pver 0 = .ok ⟨ver, v, p⟩ := by
+  intro a w
+  have hf := maskFacts_all ver hver p hp
+  simp only [maskFacts, Bool.and_eq_true, Bool.or_eq_true, decide_eq_true_eq, beq_iff_eq, Bool.not_eq_true'] at hf
+  obtain ⟨⟨⟨⟨⟨⟨⟨⟨⟨⟨⟨hnm, hhm⟩, hisn⟩, hish⟩, hnoth⟩, hlkn⟩, hlkh⟩, _⟩, hlk0⟩, hlkw⟩, hisn0⟩, hisnw⟩ := hf
+  have hfl : hasFlag 0 NOHOST = false := by decide
+  refine ⟨?_, ?_, ?_, ?_, rfl⟩
+  · have := net_with_prefix be ver hver v hv (dec p) p (slash_not_in_dec p) (resolve_dec be ver p) hp 0 pver hpver
+    simpa [hfl] using this
+  · have hres : resolvePrefix be ver (some (intToStr be ver (netNetmask w p))) = .ok (p : Int) := by
+      rw [resolve_mask be ver hver _ hnm, hisn, hlkn]; rfl
+    have := net_with_prefix be ver hver v hv _ p (addr_noslash be ver hver _ hnm) hres hp 0 pver hpver
+    simpa [hfl] using this
+  · by_cases hpe : p = 0 ∨ p = w
+    · -- all-ones / all-zeros: a netmask
+      have hq : w - p ≤ width ver := by omega
+      have hres : resolvePrefix be ver (some (intToStr be ver (netHostmask w p))) = .ok ((w - p : Nat) : Int) := by
+        rw [resolve_mask be ver hver _ hhm]
+        rcases hpe with e | e
+        · subst e; rw [hisn0, hlk0]; rfl
+        · rw [e]; rw [hisnw, hlkw]; simp
+      have := net_with_prefix be ver hver v hv _ (w - p) (addr_noslash be ver hver _ hhm) hres hq 0 pver hpver
+      simpa [hfl, hpe] using this
+    · have hn : isNetmask w (netHostmask w p) = false := by
+        rcases hnoth with h | h
+        · exact absurd h hpe
+        · exact h
+      have hres : resolvePrefix be ver (some (intToStr be ver (netHostmask w p))) = .ok (p : Int) := by
+        rw [resolve_mask be ver hver _ hhm, hn, hish, hlkh]; rfl
+      have := net_with_prefix be ver hver v hv _ p (addr_noslash be ver hver _ hhm) hres hp 0 pver hpver
+      simpa [hfl, hpe] using this
+  · have hmax : (v : Int) ≤ (maxInt ver : Int) := by
+      have : v ≤ maxInt ver := by unfold maxInt; omega
+      omega
+    have h1 : ¬ ¬ (0 ≤ (v : Int) ∧ (v : Int) ≤ (maxInt ver : Int)) := by
+      intro h; apply h; exact ⟨by omega, hmax⟩
+    have h2 : ¬ ¬ (0 ≤ (p : Int) ∧ (p : Int) ≤ (width ver : Int)) := by
+      intro h; apply h; constructor <;> omega
+    have hver' : ver = 4 ∨ ver = 6 := hver
+    unfold ipNetwork
+    simp only [if_pos hver']
+    unfold parseIpNetwork
+    simp only [h1, h2, if_false, Int.toNat_natCast, applyNohost_ok ver hver 0 v p hp, hfl, Bool.false_eq_true]
+
+example : VerOK 6 ∧ (0xfe80 <<< 112 ||| 5) < 2 ^ width 6 ∧ 10 ≤ width 6 := ⟨Or.inr rfl, by decide, by decide⟩
+
+/-- **str() round trip.**  `IPNetwork(str(n)) = n` (version, value with host bits, prefix), with
+    or without an explicit version, on both back ends. -/
+theorem str_roundtrip (be : Backend) (n : Net) (hn : n.WF) (pver : Option Nat) (hpver : pver = none ∨ pver = some n.ver) :
+    ipNetwork be (.str (netStr be n)) false pver 0 = .ok n := by
+  obtain ⟨hver, hv, hp⟩ := hn
+  have := (spellings_agree be n.ver hver n.val hv n.plen hp pver hpver).1
+  unfold netStr
+  rw [List.append_assoc]
+  exact this
+
+example : (⟨4, 0xC0A80105, 24⟩ : Net).WF := by simp [Net.WF, width]
+
+/-- **A bare address gets the full-width prefix** (string or IPAddress copy). -/
+theorem bare_gets_width (be : Backend) (ver : Nat) (hver : VerOK ver) (v : Nat) (hv : v < 2 ^ width ver)
+    (pver : Option Nat) (hpver : pver = none ∨ pver = some ver) :
+    ipNetwork be (.str (intToStr be ver v)) false pver 0 = .ok ⟨ver, v, width ver⟩ ∧
+    ipNetwork be (.copyAddr ⟨ver, v⟩) false pver 0 = .ok ⟨ver, v, width ver⟩ := by
+  refine ⟨?_, rfl⟩
+  apply net_of_parse be ver hver _ _ _ _ _ pver hpver
+  · intro h6; subst h6
+    have := parse4_v6text be v hv none (by intro t ht; cases ht) 0
+    simpa using this
+  · rw [parse_bare be ver hver v hv, applyNohost_ok ver hver 0 v _ (Nat.le_refl _)]
+    rfl
+
+/-- **NOHOST clears exactly the host bits**: the stored value becomes `v / 2^(w-p) * 2^(w-p)`
+    (prefix kept), for the string and the tuple form. -/
+theorem nohost_clears_exactly (be : Backend) (ver : Nat) (hver : VerOK ver) (v : Nat) (hv : v < 2 ^ width ver)
+    (p : Nat) (hp : p ≤ width ver) (pver : Option Nat) (hpver : pver = none ∨ pver = some ver) :
+    ipNetwork be (.str (intToStr be ver v ++ '/' :: dec p)) false pver NOHOST
+      = .ok ⟨ver, v / 2 ^ (width ver - p) * 2 ^ (width ver - p), p⟩ ∧
+    ipNetwork be (.tuple v p) false (some ver) NOHOST
+      = .ok ⟨ver, v / 2 ^ (width ver - p) * 2 ^ (width ver - p), p⟩ := by
+  have hfl : hasFlag NOHOST NOHOST = true := by decide
+  have hand : v &&& netNetmask (width ver) p = v / 2 ^ (width ver - p) * 2 ^ (width ver - p) := by
+    show v &&& ((2 ^ width ver - 1) ^^^ hostmaskInt (width ver) p) = _
+    rw [hostmaskInt_eq]
+    exact and_netmask (width ver) (width ver - p) v hv (by omega)
+  constructor
+  · have := net_with_prefix be ver hver v hv (dec p) p (slash_not_in_dec p) (resolve_dec be ver p) hp NOHOST pver hpver
+    rw [this]; simp only [hfl, if_true, hand]
+  · have hmax : (v : Int) ≤ (maxInt ver : Int) := by
+      have : v ≤ maxInt ver := by unfold maxInt; omega
+      omega
+    have h1 : ¬ ¬ (0 ≤ (v : Int) ∧ (v : Int) ≤ (maxInt ver : Int)) := by
+      intro h; apply h; exact ⟨by omega, hmax⟩
+    have h2 : ¬ ¬ (0 ≤ (p : Int) ∧ (p : Int) ≤ (width ver : Int)) := by
+      intro h; apply h; constructor <;> omega
+    have hver' : ver = 4 ∨ ver = 6 := hver
+    unfold ipNetwork
+    simp only [if_pos hver']
+    unfold parseIpNetwork
+    simp only [h1, h2, if_false, Int.toNat_natCast, applyNohost_ok ver hver NOHOST v p hp, hfl, if_true, hand]
+
+example : (0xC0A80105 : Nat) / 2 ^ (32 - 24) * 2 ^ (32 - 24) = 0xC0A80100 := by decide
 
 end NV.C03
